@@ -24,7 +24,7 @@ KeysOfM(m) == {m[i].k : i \in 1..Len(m)}
 Pos(m, k) == IF \E i \in 1..Len(m) : m[i].k = k THEN CHOOSE i \in 1..Len(m) : m[i].k = k ELSE 0
 ValAt(m, k) == IF Pos(m, k) = 0 THEN 0 ELSE m[Pos(m, k)].v
 RemoveAt(m, p) == SubSeq(m, 1, p - 1) \o SubSeq(m, p + 1, Len(m))
-SetAt(m, p, v) == [m EXCEPT ![p].v = v]
+SlotSet(m, p, v) == [m EXCEPT ![p].v = v]
 
 \* insertion sort of slots by key (keys are strings compared through Ord)
 Ord(k) == CASE k = "a" -> 1 [] k = "b" -> 2 [] k = "c" -> 3 [] k = "d" -> 4 [] OTHER -> 9
@@ -47,8 +47,8 @@ NormKind(kind, m) == IF IsSortedKind(kind) THEN SortSlots(m) ELSE m
 PutOutcomes(m, k, v) ==
   LET p == Pos(m, k) IN
   IF p = 0 THEN {Append(m, Slot(k, v))}
-  ELSE IF m[p].v # 0 THEN {SetAt(m, p, v)}                        \* existing key keeps its position
-  ELSE {SetAt(m, p, v), Append(RemoveAt(m, p), Slot(k, v))}        \* over a placeholder: in place or appended
+  ELSE IF m[p].v # 0 THEN {SlotSet(m, p, v)}                        \* existing key keeps its position
+  ELSE {SlotSet(m, p, v), Append(RemoveAt(m, p), Slot(k, v))}        \* over a placeholder: in place or appended
 
 DropPlaceholders(m) == SelectSeq(m, LAMBDA s : s.v # 0)
 R(m, ret) == [m |-> m, ret |-> ret]
